@@ -57,7 +57,11 @@ RULE = ('decoders = panqec.config.DECODERS; classes = allowed_codes (None -> all
         'parameter set) varying one axis at a time (all noises; all rates; all dtypes; all parameter sets), 3 modes '
         'each; otherwise BASE: the base point in 3 modes plus int64 and list in mode reused-asc. Every point is '
         'crossed with the whole syndrome set: all 2^rank syndromes if rank <= 10, else the distinct syndromes of all '
-        'Pauli errors of weight <= w (w = 2 for n <= n_w2 else 1) plus the zero syndrome. A sub-case (point, mode, '
+        'Pauli errors of weight <= w (w = 2 for n <= n_w2 else 1) plus the zero syndrome. DEEP families '
+        '(BOUNDS.deep: decoder, class, size, Pauli letter, w, shards) add, at the base point in uint8 with one '
+        'reused decoder per shard, the complete set of syndromes of errors that put that one letter on every '
+        'subset of <= w qubits (union-find on odd tori up to weight 3, X-cube matching on 4x4x4 at weight 2). '
+        'A sub-case (point, mode, '
         'dtype, syndrome) is distinct by construction and non-trivial when the syndrome is non-zero and the decode '
         'was executed (counted from the set of executed sub-cases).')
 ISOLATE = True          # every case in a freshly forked child (runner default)
@@ -139,9 +143,35 @@ BOUNDS = {
         'default': _DEF_T,
     },
 }
-BUDGET_S = {'quick': 600, 'thorough': 5400}
+BUDGET_S = {'quick': 1500, 'thorough': 7200}
 CHUNK = 4
 MAX_VIOLATIONS_PER_CASE = 8
+
+# DEEP families: single-sector errors of higher weight on sizes where the generic weight bound is too shallow
+# (clusters that wrap an odd torus direction need weight 3; two projected X-cube strings cross only for L >= 4).
+# One entry = decoder, class, size, Pauli letter of the sector, maximal weight, number of shards.  The syndrome
+# set is {syndrome(e): e = that letter on every subset of <= w qubits}, COMPLETE for the stated weight; it is run
+# at the base point (depolarising, p=0.1, uint8) with one decoder reused per shard, ascending.
+_DEEP_Q = [
+    ('UnionFindDecoder', 'Toric2DCode', [3, 3], 'X', 3, 2),
+    ('UnionFindDecoder', 'Toric2DCode', [3, 3], 'Z', 3, 2),
+    ('UnionFindDecoder', 'Toric2DCode', [3, 4], 'X', 3, 6),
+    ('UnionFindDecoder', 'Toric2DCode', [4, 3], 'X', 3, 6),
+    ('XCubeMatchingDecoder', 'XCubeCode', [4, 4, 4], 'X', 2, 8),
+]
+DEEP = {
+    'quick': _DEEP_Q,
+    'thorough': _DEEP_Q + [
+        ('UnionFindDecoder', 'Toric2DCode', [3, 4], 'Z', 3, 6),
+        ('UnionFindDecoder', 'Toric2DCode', [4, 3], 'Z', 3, 6),
+        ('UnionFindDecoder', 'Toric2DCode', [3, 5], 'X', 3, 12),
+        ('UnionFindDecoder', 'Toric2DCode', [5, 3], 'X', 3, 12),
+        ('XCubeMatchingDecoder', 'XCubeCode', [4, 4, 4], 'Z', 2, 8),
+        ('XCubeMatchingDecoder', 'XCubeCode', [4, 4, 3], 'X', 2, 6),
+    ],
+}
+for _t in ('quick', 'thorough'):
+    BOUNDS[_t]['deep'] = [list(d) for d in DEEP[_t]]
 
 
 # ------------------------------------------------------------------ cases
@@ -253,7 +283,18 @@ def cases(tier, seed):
         if len(items) >= 2:
             sess.append({'session': items + [items[0]], 'decoder': dname,
                          'cfg': {'cls': cls, 'size': [], 'deformation': None}, 'n': items[0]['n']})
-    return out + sess
+    deep = []
+    for dname, cls, size, letter, w, shards in DEEP[tier]:
+        if dname not in decs or (decs[dname].allowed_codes is not None and cls not in decs[dname].allowed_codes) \
+                or not F.in_family(cls, tuple(size)):
+            continue
+        for i in range(shards):
+            deep.append({'decoder': dname, 'cfg': {'cls': cls, 'size': list(size), 'deformation': None},
+                         'n': F.n_qubits(cls, size) or 0, 'profile': 'DEEP', 'noise': _noises(cls)[0],
+                         'params_list': [dict(PARAMS.get(dname, [{}])[0])], 'rates': [BASE_RATE],
+                         'dtypes': ['uint8'], 'modes': ['reused-asc'], 'w': w, 'rank_all': b['rank_all'],
+                         'space': {'letter': letter, 'w': w}, 'shard': [i, shards]})
+    return out + deep + sess
 
 
 # ------------------------------------------------------------------ syndrome space (reference)
@@ -302,6 +343,27 @@ def syndrome_space(H, n, w, rank_all):
         kind = 'w<=%d' % w
     order = sorted(seen.items(), key=lambda t: (bin(t[0]).count('1'), t[0]))
     return order, r, kind
+
+
+def sector_space(H, n, letter, w):
+    """[(syndrome int, preimage error int)] for every error that puts `letter` (X, Y or Z) on a subset of at
+    most w qubits: complete for that sector and weight; one (lowest-weight) preimage per distinct syndrome;
+    sorted by (syndrome weight, syndrome), zero first."""
+    import itertools
+    single = []
+    for q in range(n):
+        e = (1 << q if letter in 'XY' else 0) | (1 << (n + q) if letter in 'YZ' else 0)
+        single.append((gf2.syndrome(H, e, n), e))
+    seen = {0: 0}
+    for k in range(1, w + 1):
+        for comb in itertools.combinations(range(n), k):
+            sy = er = 0
+            for q in comb:
+                sy ^= single[q][0]
+                er |= single[q][1]
+            seen.setdefault(sy, er)
+    order = sorted(seen.items(), key=lambda t: (bin(t[0]).count('1'), t[0]))
+    return order, gf2.rank(H), '%s-only w<=%d' % (letter, w)
 
 
 # ------------------------------------------------------------------ evaluation
@@ -409,9 +471,15 @@ def eval_case(case):
     n = code.n
     H = gf2.matrix_rows(code.stabilizer_matrix)
     m = len(H)
-    space, r, skind = syndrome_space(H, n, case['w'], case['rank_all'])
-    natives = []
-    for s_int, e_int in space:
+    if case.get('space'):
+        space, r, skind = sector_space(H, n, case['space']['letter'], case['space']['w'])
+    else:
+        space, r, skind = syndrome_space(H, n, case['w'], case['rank_all'])
+    sh = case.get('shard') or [0, 1]
+    todo = list(range(len(space)))[sh[0]::sh[1]]         # this case's share of the enumeration (ascending)
+    natives = {}
+    for idx in todo:
+        s_int, e_int = space[idx]
         e = np.array(gf2.int_to_vec(e_int, 2 * n), dtype=np.uint8)
         s = code.measure_syndrome(e)
         ok = isinstance(s, np.ndarray) and s.shape == (m,)
@@ -422,11 +490,11 @@ def eval_case(case):
             ok = got == s_int
         if not ok:
             bump('measure_syndrome_mismatch')
-            natives.append(None)
+            natives[idx] = None
         else:
-            natives.append(s)
-    bump('syndromes_enumerated', len(space))
-    bump('syndrome_sets_' + ('all' if skind == 'all' else 'weight_bounded'))
+            natives[idx] = s
+    bump('syndromes_enumerated', len(todo))
+    bump('syndrome_sets_' + ('all' if skind == 'all' else 'sector' if case.get('space') else 'weight_bounded'))
 
     def make_model():
         kw = {}
@@ -448,6 +516,8 @@ def eval_case(case):
             return
         key = _key(case, kind, mode=mode, dtype=dtype, rate=rate, syndrome_index=idx,
                    syndrome_set=skind, params=cur['params'], **kw)
+        if case.get('shard'):
+            key['shard'] = list(case['shard'])
         d = dict(detail or {})
         if idx is not None:
             s_int, e_int = space[idx]
@@ -511,7 +581,7 @@ def eval_case(case):
             for dtype in case['dtypes']:
                 for mode in case['modes']:
                     if mode == 'fresh':
-                        for idx in range(len(space)):
+                        for idx in todo:
                             dec = construct(model, rate, mode)
                             if dec is None:
                                 break
@@ -520,8 +590,7 @@ def eval_case(case):
                         dec = construct(model, rate, mode)
                         if dec is None:
                             continue
-                        order = range(len(space)) if mode == 'reused-asc' else range(len(space) - 1, -1, -1)
-                        for idx in order:
+                        for idx in (todo if mode == 'reused-asc' else todo[::-1]):
                             one(dec, mode, dtype, rate, idx)
 
     res['nontrivial'] = sum(1 for t in executed if t[4] != 0)
@@ -543,7 +612,7 @@ def eval_case(case):
     res['violations'] = viols[:MAX_VIOLATIONS_PER_CASE]
     res['outcomes'] = sorted(outcomes)[:50]
     res['samples'] = [{'decoder': dname, 'config': F.cfg_label(cfg), 'n': n, 'rank': r,
-                       'syndrome_set': skind, 'syndromes': len(space), 'noise': nz,
+                       'syndrome_set': skind, 'syndromes': len(todo), 'noise': nz,
                        'params': case['params_list'], 'rates': case['rates'], 'dtypes': case['dtypes'],
                        'modes': case['modes']}]
     bump('decoder_cases_' + dname)
